@@ -16,8 +16,14 @@ reader's machinery (no stacks, no sweep, no re-snapping):
 an undefined `#BPMxx` id, two tempo objects or two objects of one lane at the same position, an `#LNOBJ` object
 with no open object before it, missing or non-positive `#BPM`.
 
-The byte-level lexer (`classify`, `parseDoc`, `readHeader`, `parseFloat`, …) is shared with the model
-(`Model/BMS.lean`): the text layer is a parameter of C04/C05, the semantics above is what they are about.
+Two entry points into the same semantics (`denoteBody`):
+* `denoteText` (C04) — the specification's OWN text layer, written independently of the reader: `fileLines` (a file's
+  bytes into lines), `trimBlank`, `bookLine` (one line: comment / `#NAME value` / `#mmmcc:data` / ignored word),
+  `bookTable` (first definition fixes the place, last gives the value), `bookDoc`, `bookHeader` (the header record).
+  `Props/C04.lean` proves it equal to the reader's lexer wherever it gives a meaning and states where they part.
+* `denote` (C05, and the semantic core of C04) — the same semantics over the model's lexer (`classify`, `parseDoc`,
+  `readHeader`); `denoteText_eq_denote` relates the two.
+Shared by both and by the model: the number parsers `parseFloat`, `parseNat`, `parseHex2`.
 -/
 import Reamber.Model.BMS
 import Reamber.Spec.Timing
